@@ -1,16 +1,24 @@
 /-
   `simple_code()` buffering is slicing independent for every filter that satisfies the BCJ contract (C06).
-  Configuration proved: `next.code == NULL` (`Src.null`), i.e. the filter reads the caller's input directly — the encoder
-  configuration of every BCJ filter. (Behind a real next coder the same argument needs that coder's own slicing independence.)
+  Configuration proved: the filter's input comes from `lzma_bufcpy` (`Src.null`): `next.code == NULL` — the encoder configuration
+  of every BCJ filter — or a next coder that behaves like it (C15's pass-through). Behind a real next coder the same argument needs
+  that coder's own slicing independence.
+  The contract is proved for the eight real filters in Lemmas/CoderBcj.lean (from C15's chunk-stability theorems); the transfer to
+  C15's model of `simple_code()` is in Lemmas/CoderBcjEquiv.lean / CoderBcjRun.lean.
 -/
 import XzVerif.Model.CoderSmall
 
 namespace XzVerif.Coder
 
-variable {φ : Type}
+variable {φ ν : Type}
 
-/-- The contract `simple_coder.c` relies on. `F state buf = (buf', n, state')`. -/
-structure BcjContract (F : Filter φ) (unfilteredMax : Nat) : Prop where
+/-- The contract `simple_coder.c` relies on. `F state buf = (buf', n, state')`; `state` contains `now_pos` and whatever the
+    filter carries between calls (x86: `prev_mask`, `prev_pos`). `lim` bounds the buffer lengths for which prefix stability is
+    claimed (x86: the 32-bit `prev_pos` arithmetic is only faithful below 4 GiB; the other filters satisfy it for every `lim`).
+    Prefix stability speaks about bytes and counts only: the state reached by one call on `a ++ b` and by two calls may differ
+    (x86 re-clamps `prev_pos` at the start of every call) as long as all later results agree — which is what the law, applied
+    again from the state actually reached, says. -/
+structure BcjContract (F : Filter φ) (unfilteredMax : Nat) (lim : Nat) : Prop where
   /-- the size never changes -/
   len : ∀ s b, (F s b).1.length = b.length
   /-- a prefix of `n` bytes is processed -/
@@ -20,45 +28,53 @@ structure BcjContract (F : Filter φ) (unfilteredMax : Nat) : Prop where
   /-- at most `unfiltered_max` bytes are left unprocessed (`assert(unfiltered <= coder->allocated / 2)`) -/
   leaves : ∀ s b, b.length - (F s b).2.1 ≤ unfilteredMax
   /-- prefix stability: one call on `a ++ b` = a call on `a`, then a call on (what that left) ++ `b` -/
-  chunk : ∀ s a b, F s (a ++ b) =
-    ((F s a).1.take (F s a).2.1 ++ (F (F s a).2.2 ((F s a).1.drop (F s a).2.1 ++ b)).1,
-     (F s a).2.1 + (F (F s a).2.2 ((F s a).1.drop (F s a).2.1 ++ b)).2.1,
-     (F (F s a).2.2 ((F s a).1.drop (F s a).2.1 ++ b)).2.2)
+  chunk : ∀ s a b, (a ++ b).length < lim →
+    (F s (a ++ b)).1 = (F s a).1.take (F s a).2.1 ++ (F (F s a).2.2 ((F s a).1.drop (F s a).2.1 ++ b)).1
+    ∧ (F s (a ++ b)).2.1 = (F s a).2.1 + (F (F s a).2.2 ((F s a).1.drop (F s a).2.1 ++ b)).2.1
 
 /-- `D` = input consumed so far, `T` = bytes already filtered (written or pending), `f` = filter state, `U` = unfiltered bytes carried:
-    whatever input follows, filtering everything at once equals `T` followed by filtering `U ++ more` from `f`. -/
-def LiveInv (F : Filter φ) (φ₀ : φ) (D T : List UInt8) (f : φ) (U : List UInt8) : Prop :=
-  ∀ more, F φ₀ (D ++ more) = (T ++ (F f (U ++ more)).1, T.length + (F f (U ++ more)).2.1, (F f (U ++ more)).2.2)
+    whatever input follows (below the length limit), filtering everything at once yields `T` followed by filtering `U ++ more` from `f`. -/
+structure LiveInv (F : Filter φ) (lim : Nat) (φ₀ : φ) (D T : List UInt8) (f : φ) (U : List UInt8) : Prop where
+  size : T.length + U.length = D.length
+  eq : ∀ more, (D ++ more).length < lim → (F φ₀ (D ++ more)).1 = T ++ (F f (U ++ more)).1
 
-theorem LiveInv.init (F : Filter φ) (φ₀ : φ) : LiveInv F φ₀ [] [] φ₀ [] := by
-  intro more; simp
+theorem LiveInv.init (F : Filter φ) (lim : Nat) (φ₀ : φ) : LiveInv F lim φ₀ [] [] φ₀ [] :=
+  ⟨rfl, fun more _ => by simp⟩
 
-theorem LiveInv.step {F : Filter φ} {umax : Nat} (hc : BcjContract F umax) {φ₀ : φ} {D T : List UInt8} {f : φ} {U : List UInt8}
-    (h : LiveInv F φ₀ D T f U) (c : List UInt8) :
-    LiveInv F φ₀ (D ++ c) (T ++ (F f (U ++ c)).1.take (F f (U ++ c)).2.1) (F f (U ++ c)).2.2
+theorem LiveInv.step {F : Filter φ} {umax lim : Nat} (hc : BcjContract F umax lim) {φ₀ : φ} {D T : List UInt8} {f : φ} {U : List UInt8}
+    (h : LiveInv F lim φ₀ D T f U) (c : List UInt8) :
+    LiveInv F lim φ₀ (D ++ c) (T ++ (F f (U ++ c)).1.take (F f (U ++ c)).2.1) (F f (U ++ c)).2.2
       ((F f (U ++ c)).1.drop (F f (U ++ c)).2.1) := by
-  intro more
-  have h1 := h (c ++ more)
-  rw [← List.append_assoc] at h1
-  rw [h1, ← List.append_assoc U c more, hc.chunk f (U ++ c) more]
-  have hl : ((F f (U ++ c)).1.take (F f (U ++ c)).2.1).length = (F f (U ++ c)).2.1 := by
-    rw [List.length_take, hc.len]; exact Nat.min_eq_left (hc.count _ _)
-  simp only [List.append_assoc, List.length_append, hl, Nat.add_assoc]
+  have hl := hc.len f (U ++ c)
+  have hn := hc.count f (U ++ c)
+  have hsz := h.size
+  constructor
+  · simp only [List.length_append, List.length_take, List.length_drop, hl] at hn ⊢
+    omega
+  · intro more hlim
+    have h1 := h.eq (c ++ more) (by simpa [List.append_assoc] using hlim)
+    rw [← List.append_assoc, ← List.append_assoc] at h1
+    have hlim' : (U ++ c ++ more).length < lim := by
+      simp only [List.length_append] at hlim ⊢; omega
+    rw [h1, (hc.chunk f (U ++ c) more hlim').1, List.append_assoc]
 
-theorem LiveInv.final {F : Filter φ} {φ₀ : φ} {D T : List UInt8} {f : φ} {U : List UInt8}
-    (h : LiveInv F φ₀ D T f U) (c : List UInt8) : (F φ₀ (D ++ c)).1 = T ++ (F f (U ++ c)).1 := by
-  rw [h c]
+theorem LiveInv.final {F : Filter φ} {lim : Nat} {φ₀ : φ} {D T : List UInt8} {f : φ} {U : List UInt8}
+    (h : LiveInv F lim φ₀ D T f U) (c : List UInt8) (hl : (D ++ c).length < lim) : (F φ₀ (D ++ c)).1 = T ++ (F f (U ++ c)).1 :=
+  h.eq c hl
 
-/-- The invariant of `lzma_simple_coder` relative to the whole `input`, the consumed part `D` and the output so far `O`. -/
-structure SInv (F : Filter φ) (φ₀ : φ) (input : List UInt8) (s : Simple φ Unit) (D O : List UInt8) : Prop where
+/-- The invariant of `lzma_simple_coder` relative to `X` (the whole byte stream the source delivers: the caller's input when there is
+    no next coder, the next coder's total output otherwise), the part `D` of it delivered so far and the output so far `O`. -/
+structure SInv (F : Filter φ) (lim : Nat) (φ₀ : φ) (X : List UInt8) (s : Simple φ ν) (D O : List UInt8) : Prop where
+  bound : X.length < lim
   ord1 : s.pos ≤ s.filtered
   ord2 : s.filtered ≤ s.buffer.length
   live : s.endReached = false →
-    LiveInv F φ₀ D (O ++ (s.buffer.take s.filtered).drop s.pos) s.filt (s.buffer.drop s.filtered)
-  dead : s.endReached = true → D = input ∧ O ++ s.buffer.drop s.pos = (F φ₀ input).1 ∧ s.filtered = s.buffer.length
+    LiveInv F lim φ₀ D (O ++ (s.buffer.take s.filtered).drop s.pos) s.filt (s.buffer.drop s.filtered)
+  dead : s.endReached = true → D = X ∧ O ++ s.buffer.drop s.pos = (F φ₀ X).1 ∧ s.filtered = s.buffer.length
 
-theorem SInv.init (F : Filter φ) (φ₀ : φ) (input : List UInt8) : SInv F φ₀ input (Simple.init φ₀ ()) [] [] :=
-  ⟨by simp [Simple.init], by simp [Simple.init], fun _ => by simpa [Simple.init] using LiveInv.init F φ₀,
+theorem SInv.init (F : Filter φ) (lim : Nat) (φ₀ : φ) (X : List UInt8) (hlim : X.length < lim) (n₀ : ν) :
+    SInv F lim φ₀ X (Simple.init φ₀ n₀) [] [] :=
+  ⟨hlim, by simp [Simple.init], by simp [Simple.init], fun _ => by simpa [Simple.init] using LiveInv.init F lim φ₀,
    fun h => by simp [Simple.init] at h⟩
 
 theorem drop_take_self (l : List UInt8) (n : Nat) : (l.take n).drop n = [] := by
@@ -77,6 +93,20 @@ theorem take_take_drop (l : List UInt8) (k n : Nat) (h : k ≤ n) : l.take k ++ 
   have : l.take k = (l.take n).take k := by rw [List.take_take]; congr; omega
   rw [this, List.take_append_drop]
 
+theorem take_drop_append (l : List UInt8) (n c : Nat) (hc : c ≤ (l.take n).length) :
+    (l.take n).drop c ++ l.drop n = l.drop c := by
+  induction l generalizing n c with
+  | nil => simp
+  | cons x xs ih =>
+    cases n with
+    | zero => simp at hc; subst hc; simp
+    | succ n =>
+      cases c with
+      | zero => simp
+      | succ c =>
+        simp only [List.take_succ_cons, List.drop_succ_cons]
+        exact ih n c (by simpa using hc)
+
 /-- `runPiece` field by field (all `rfl`), with the action spelled the way `runPiece` spells it. -/
 def pieceAct (fin : Bool) (restLen inLen : Nat) : Action := if fin && decide (restLen ≤ inLen) then Action.finish else Action.run
 
@@ -91,28 +121,42 @@ theorem runPiece_eq {σ : Type} (c : Coder σ) (fin : Bool) (r : Run σ) (inLen 
           || (decide (r.rest.length ≤ inLen)
               && decide ((c.code r.state (r.rest.take inLen) cap (pieceAct fin r.rest.length inLen)).2.out.length < cap)) } := rfl
 
+/-- **What `simple_code()` needs from whatever feeds it** (`copy_or_code()`): a ghost relation `G n D rest` — "in source state `n` the
+    bytes `D` have been delivered and `rest` of the caller's input is unread" — such that a pull on `inp` (with `tail` not shown to this
+    call; nothing is hidden when the action is `LZMA_FINISH`) consumes at most `inp`, keeps the relation with the delivered bytes
+    appended, and reports the end only when the whole stream `X` has been delivered.
+    Instances: no next coder (`G () D rest := D ++ rest = input`, `X = input`), and any byte machine as next coder
+    (`G (st, eof) D rest := Reach … input D st eof rest`, `X` = what the machine has written when it is done). -/
+structure SrcLaw (src : Src ν) (fin : Bool) (X : List UInt8) (G : ν → List UInt8 → List UInt8 → Prop) : Prop where
+  pull : ∀ n D inp tail cap (finish : Bool), G n D (inp ++ tail) → (finish = true → tail = [] ∧ fin = true) →
+    (src.pull n inp cap finish).2.2.1 ≤ inp.length
+    ∧ G (src.pull n inp cap finish).1 (D ++ (src.pull n inp cap finish).2.1) (inp.drop (src.pull n inp cap finish).2.2.1 ++ tail)
+    ∧ ((src.pull n inp cap finish).2.2.2 = true → D ++ (src.pull n inp cap finish).2.1 = X)
+
 section stages
-variable {F : Filter φ} {umax : Nat} (hc : BcjContract F umax) {φ₀ : φ} {input : List UInt8}
+variable {F : Filter φ} {umax lim : Nat} (hc : BcjContract F umax lim) {φ₀ : φ} {X : List UInt8}
 include hc
 
-theorem stageACore_inv (s : Simple φ Unit) (copied : List UInt8) (used : Nat) (ended : Bool) (D O out0 : List UInt8)
-    (hinv : SInv F φ₀ input s D O) (hend : s.endReached = false) (hpos : s.pos = s.filtered)
-    (hfin : ended = true → D ++ copied = input) :
-    ∃ new, (simpleStageACore F s (s.buffer.drop s.pos) ((), copied, used, ended) out0).2.1 = out0 ++ new
-      ∧ SInv F φ₀ input (simpleStageACore F s (s.buffer.drop s.pos) ((), copied, used, ended) out0).1 (D ++ copied) (O ++ new)
-      ∧ (simpleStageACore F s (s.buffer.drop s.pos) ((), copied, used, ended) out0).2.2 = used
-      ∧ (simpleStageACore F s (s.buffer.drop s.pos) ((), copied, used, ended) out0).1.pos = 0
-      ∧ (simpleStageACore F s (s.buffer.drop s.pos) ((), copied, used, ended) out0).1.filtered = 0
-      ∧ ((simpleStageACore F s (s.buffer.drop s.pos) ((), copied, used, ended) out0).1.endReached = true →
-          (simpleStageACore F s (s.buffer.drop s.pos) ((), copied, used, ended) out0).1.buffer = []) := by
+theorem stageACore_inv (s : Simple φ ν) (n' : ν) (copied : List UInt8) (used : Nat) (ended : Bool) (D O out0 : List UInt8)
+    (hinv : SInv F lim φ₀ X s D O) (hend : s.endReached = false) (hpos : s.pos = s.filtered)
+    (hfin : ended = true → D ++ copied = X) :
+    ∃ new, (simpleStageACore F s (s.buffer.drop s.pos) (n', copied, used, ended) out0).2.1 = out0 ++ new
+      ∧ SInv F lim φ₀ X (simpleStageACore F s (s.buffer.drop s.pos) (n', copied, used, ended) out0).1 (D ++ copied) (O ++ new)
+      ∧ (simpleStageACore F s (s.buffer.drop s.pos) (n', copied, used, ended) out0).2.2 = used
+      ∧ (simpleStageACore F s (s.buffer.drop s.pos) (n', copied, used, ended) out0).1.next = n'
+      ∧ (simpleStageACore F s (s.buffer.drop s.pos) (n', copied, used, ended) out0).1.pos = 0
+      ∧ (simpleStageACore F s (s.buffer.drop s.pos) (n', copied, used, ended) out0).1.filtered = 0
+      ∧ ((simpleStageACore F s (s.buffer.drop s.pos) (n', copied, used, ended) out0).1.endReached = true →
+          (simpleStageACore F s (s.buffer.drop s.pos) (n', copied, used, ended) out0).1.buffer = []) := by
   have hlive := hinv.live hend
   rw [hpos, drop_take_self, List.append_nil] at hlive
   rw [← hpos] at hlive
   cases ended with
   | true =>
     simp only [simpleStageACore, hend, Bool.false_or, if_true]
-    refine ⟨_, rfl, ⟨by simp, by simp, fun h => by simp at h, fun _ => ⟨hfin rfl, ?_, by simp⟩⟩, by simp, by simp, by simp, by simp⟩
-    have hf := hlive.final copied
+    refine ⟨_, rfl, ⟨hinv.bound, by simp, by simp, fun h => by simp at h, fun _ => ⟨hfin rfl, ?_, by simp⟩⟩, by simp, by simp, by simp,
+      by simp, by simp⟩
+    have hf := hlive.final copied (by rw [hfin rfl]; exact hinv.bound)
     rw [← hfin rfl, hf]
     simp only [List.drop_zero, List.append_nil]
     congr 1
@@ -122,7 +166,7 @@ theorem stageACore_inv (s : Simple φ Unit) (copied : List UInt8) (used : Nat) (
     · rfl
   | false =>
     simp only [simpleStageACore, hend, Bool.false_or, Bool.false_eq_true, if_false]
-    refine ⟨_, rfl, ⟨by simp, by simp, fun _ => ?_, fun h => by simp at h⟩, by simp, by simp, by simp, by simp⟩
+    refine ⟨_, rfl, ⟨hinv.bound, by simp, by simp, fun _ => ?_, fun h => by simp at h⟩, by simp, by simp, by simp, by simp, by simp⟩
     simp only [List.take_zero, List.drop_zero, List.append_nil]
     split
     · rename_i hreg
@@ -132,42 +176,40 @@ theorem stageACore_inv (s : Simple φ Unit) (copied : List UInt8) (used : Nat) (
       simpa [hU] using hlive
     · exact hlive.step hc copied
 
-theorem stageA_inv (isEnc : Bool) (s : Simple φ Unit) (D O out0 inp : List UInt8) (cap : Nat) (finish : Bool)
-    (hinv : SInv F φ₀ input s D O) (hend : s.endReached = false) (hpos : s.pos = s.filtered)
-    (hfin : finish = true → D ++ inp = input) :
-    ∃ new, (simpleStageA F (Src.null isEnc) s inp cap finish out0).2.1 = out0 ++ new
-      ∧ SInv F φ₀ input (simpleStageA F (Src.null isEnc) s inp cap finish out0).1
-          (D ++ inp.take (simpleStageA F (Src.null isEnc) s inp cap finish out0).2.2) (O ++ new)
-      ∧ (simpleStageA F (Src.null isEnc) s inp cap finish out0).2.2 ≤ inp.length
-      ∧ (simpleStageA F (Src.null isEnc) s inp cap finish out0).1.pos = 0
-      ∧ (simpleStageA F (Src.null isEnc) s inp cap finish out0).1.filtered = 0
-      ∧ ((simpleStageA F (Src.null isEnc) s inp cap finish out0).1.endReached = true →
-          (simpleStageA F (Src.null isEnc) s inp cap finish out0).1.buffer = []) := by
-  simp only [simpleStageA, Src.null]
+theorem stageA_inv {src : Src ν} {fin : Bool} {G : ν → List UInt8 → List UInt8 → Prop} (hl : SrcLaw src fin X G)
+    (s : Simple φ ν) (D O out0 inp tail : List UInt8) (cap : Nat) (finish : Bool)
+    (hinv : SInv F lim φ₀ X s D O) (hG : G s.next D (inp ++ tail)) (hend : s.endReached = false) (hpos : s.pos = s.filtered)
+    (hfin : finish = true → tail = [] ∧ fin = true) :
+    ∃ new C, (simpleStageA F src s inp cap finish out0).2.1 = out0 ++ new
+      ∧ SInv F lim φ₀ X (simpleStageA F src s inp cap finish out0).1 (D ++ C) (O ++ new)
+      ∧ (simpleStageA F src s inp cap finish out0).2.2 ≤ inp.length
+      ∧ G (simpleStageA F src s inp cap finish out0).1.next (D ++ C) (inp.drop (simpleStageA F src s inp cap finish out0).2.2 ++ tail)
+      ∧ (simpleStageA F src s inp cap finish out0).1.pos = 0
+      ∧ (simpleStageA F src s inp cap finish out0).1.filtered = 0
+      ∧ ((simpleStageA F src s inp cap finish out0).1.endReached = true →
+          (simpleStageA F src s inp cap finish out0).1.buffer = []) := by
+  simp only [simpleStageA]
   split
-  · have hn : min inp.length (cap - out0.length - (s.buffer.drop s.pos).length) ≤ inp.length := Nat.min_le_left _ _
-    revert hn
-    generalize min inp.length (cap - out0.length - (s.buffer.drop s.pos).length) = n
-    intro hn
-    obtain ⟨new, h1, h2, h3, h4, h5, h6⟩ := stageACore_inv hc s (inp.take n) n (isEnc && finish && decide (n = inp.length)) D O out0
-      hinv hend hpos (by
-        intro h
-        simp only [Bool.and_eq_true, decide_eq_true_eq] at h
-        rw [h.2, List.take_length]; exact hfin h.1.2)
-    refine ⟨new, h1, ?_, by rw [h3]; exact hn, h4, h5, h6⟩
-    rw [h3]; exact h2
-  · refine ⟨[], by simp, ⟨by simp, by simp, fun _ => ?_, fun h => by simp [hend] at h⟩, by simp, rfl, rfl, fun h => by simp [hend] at h⟩
+  · obtain ⟨p1, p2, p3⟩ := hl.pull s.next D inp tail (cap - out0.length - (s.buffer.drop s.pos).length) finish hG hfin
+    generalize src.pull s.next inp (cap - out0.length - (s.buffer.drop s.pos).length) finish = p at p1 p2 p3
+    obtain ⟨n', copied, used, ended⟩ := p
+    obtain ⟨new, h1, h2, h3, h4, h5, h6, h7⟩ := stageACore_inv hc s n' copied used ended D O out0 hinv hend hpos p3
+    refine ⟨new, copied, h1, h2, by rw [h3]; exact p1, ?_, h5, h6, h7⟩
+    rw [h3, h4]; exact p2
+  · refine ⟨[], [], by simp, ?_, by simp, by simpa using hG, rfl, rfl, fun h => by simp [hend] at h⟩
+    refine ⟨hinv.bound, by simp, by simp, fun _ => ?_, fun h => by simp [hend] at h⟩
     have hlive := hinv.live hend
     rw [hpos, drop_take_self, List.append_nil] at hlive
     simpa [hpos] using hlive
 
-theorem stageBCore_inv (a : Simple φ Unit × List UInt8 × Nat) (copied : List UInt8) (used : Nat) (ended : Bool)
+theorem stageBCore_inv (a : Simple φ ν × List UInt8 × Nat) (n' : ν) (copied : List UInt8) (used : Nat) (ended : Bool)
     (D O : List UInt8) (cap : Nat)
-    (hinv : SInv F φ₀ input a.1 D O) (hp : a.1.pos = 0) (hf : a.1.filtered = 0) (hend : a.1.endReached = false)
-    (hfin : ended = true → D ++ copied = input) :
-    ∃ new, (simpleStageBCore F a ((), copied, used, ended) cap).2.1 = a.2.1 ++ new
-      ∧ (simpleStageBCore F a ((), copied, used, ended) cap).2.2 = a.2.2 + used
-      ∧ SInv F φ₀ input (simpleStageBCore F a ((), copied, used, ended) cap).1 (D ++ copied) (O ++ new) := by
+    (hinv : SInv F lim φ₀ X a.1 D O) (hp : a.1.pos = 0) (hf : a.1.filtered = 0) (hend : a.1.endReached = false)
+    (hfin : ended = true → D ++ copied = X) :
+    ∃ new, (simpleStageBCore F a (n', copied, used, ended) cap).2.1 = a.2.1 ++ new
+      ∧ (simpleStageBCore F a (n', copied, used, ended) cap).2.2 = a.2.2 + used
+      ∧ (simpleStageBCore F a (n', copied, used, ended) cap).1.next = n'
+      ∧ SInv F lim φ₀ X (simpleStageBCore F a (n', copied, used, ended) cap).1 (D ++ copied) (O ++ new) := by
   have hlive := hinv.live hend
   simp only [hp, hf, List.take_zero, List.drop_zero, List.append_nil] at hlive
   have hlen := hc.len a.1.filt (a.1.buffer ++ copied)
@@ -175,79 +217,73 @@ theorem stageBCore_inv (a : Simple φ Unit × List UInt8 × Nat) (copied : List 
   cases ended with
   | true =>
     simp only [simpleStageBCore, hend, Bool.false_or, if_true]
-    refine ⟨_, rfl, by simp, ⟨Nat.min_le_left _ _, by simp, fun h => by simp at h, fun _ => ⟨hfin rfl, ?_, by simp⟩⟩⟩
-    have hfz := hlive.final copied
+    refine ⟨_, rfl, by simp, by simp, ⟨hinv.bound, Nat.min_le_left _ _, by simp, fun h => by simp at h, fun _ => ⟨hfin rfl, ?_, by simp⟩⟩⟩
+    have hfz := hlive.final copied (by rw [hfin rfl]; exact hinv.bound)
     rw [← hfin rfl, hfz]
     simp only [List.append_assoc]
     congr 1
     exact List.take_append_drop _ _
   | false =>
     simp only [simpleStageBCore, hend, Bool.false_or, Bool.false_eq_true, if_false]
-    refine ⟨_, rfl, by simp, ⟨Nat.min_le_left _ _, ?_, fun _ => ?_, fun h => by simp at h⟩⟩
+    refine ⟨_, rfl, by simp, by simp, ⟨hinv.bound, Nat.min_le_left _ _, ?_, fun _ => ?_, fun h => by simp at h⟩⟩
     · simp only; rw [hlen]; exact hcnt
     · have hs := hlive.step hc copied
       simp only
       rw [List.append_assoc, take_take_drop _ _ _ (Nat.min_le_left _ _)]
       exact hs
 
-theorem stageB_inv (isEnc : Bool) (allocated : Nat) (a : Simple φ Unit × List UInt8 × Nat) (D O inp : List UInt8) (cap : Nat)
-    (finish : Bool) (hinv : SInv F φ₀ input a.1 D O) (hp : a.1.pos = 0) (hf : a.1.filtered = 0)
-    (he : a.1.endReached = true → a.1.buffer = []) (hfin : finish = true → D ++ inp.drop a.2.2 = input) :
-    ∃ new k, (simpleStageB F (Src.null isEnc) allocated a inp cap finish).2.1 = a.2.1 ++ new
-      ∧ (simpleStageB F (Src.null isEnc) allocated a inp cap finish).2.2 = a.2.2 + k
+theorem stageB_inv {src : Src ν} {fin : Bool} {G : ν → List UInt8 → List UInt8 → Prop} (hl : SrcLaw src fin X G)
+    (allocated : Nat) (a : Simple φ ν × List UInt8 × Nat) (D O inp tail : List UInt8) (cap : Nat)
+    (finish : Bool) (hinv : SInv F lim φ₀ X a.1 D O) (hG : G a.1.next D (inp.drop a.2.2 ++ tail)) (hp : a.1.pos = 0)
+    (hf : a.1.filtered = 0) (he : a.1.endReached = true → a.1.buffer = []) (hfin : finish = true → tail = [] ∧ fin = true) :
+    ∃ new C k, (simpleStageB F src allocated a inp cap finish).2.1 = a.2.1 ++ new
+      ∧ (simpleStageB F src allocated a inp cap finish).2.2 = a.2.2 + k
       ∧ k ≤ (inp.drop a.2.2).length
-      ∧ SInv F φ₀ input (simpleStageB F (Src.null isEnc) allocated a inp cap finish).1 (D ++ (inp.drop a.2.2).take k) (O ++ new) := by
-  simp only [simpleStageB, Src.null]
+      ∧ G (simpleStageB F src allocated a inp cap finish).1.next (D ++ C) ((inp.drop a.2.2).drop k ++ tail)
+      ∧ SInv F lim φ₀ X (simpleStageB F src allocated a inp cap finish).1 (D ++ C) (O ++ new) := by
+  simp only [simpleStageB]
   split
   · rename_i hne
     have hend : a.1.endReached = false := by
       cases h : a.1.endReached
       · rfl
       · exact absurd (he h) hne
-    have hn : min (inp.drop a.2.2).length (allocated - a.1.buffer.length) ≤ (inp.drop a.2.2).length := Nat.min_le_left _ _
-    revert hn
-    generalize min (inp.drop a.2.2).length (allocated - a.1.buffer.length) = n
-    intro hn
-    obtain ⟨new, h1, h2, h3⟩ := stageBCore_inv hc a ((inp.drop a.2.2).take n) n
-      (isEnc && finish && decide (n = (inp.drop a.2.2).length)) D O cap hinv hp hf hend (by
-        intro h
-        simp only [Bool.and_eq_true, decide_eq_true_eq] at h
-        rw [h.2, List.take_length]; exact hfin h.1.2)
-    exact ⟨new, n, h1, h2, hn, h3⟩
-  · exact ⟨[], 0, by simp, by simp, by simp, by simpa using hinv⟩
+    obtain ⟨p1, p2, p3⟩ := hl.pull a.1.next D (inp.drop a.2.2) tail (allocated - a.1.buffer.length) finish hG hfin
+    generalize src.pull a.1.next (inp.drop a.2.2) (allocated - a.1.buffer.length) finish = p at p1 p2 p3
+    obtain ⟨n', copied, used, ended⟩ := p
+    obtain ⟨new, h1, h2, h3, h4⟩ := stageBCore_inv hc a n' copied used ended D O cap hinv hp hf hend p3
+    exact ⟨new, copied, used, h1, h2, p1, by rw [h3]; exact p2, h4⟩
+  · exact ⟨[], [], 0, by simp, by simp, by simp, by simpa using hG, by simpa using hinv⟩
 
-/-- One whole `simple_code()` call keeps the invariant. -/
-theorem simpleCode_inv (isEnc : Bool) (allocated : Nat) (s : Simple φ Unit) (D O inp : List UInt8) (cap : Nat) (a : Action)
-    (hinv : SInv F φ₀ input s D O) (hlive : ¬(s.endReached = true ∧ s.pos = s.buffer.length)) (ha : a ≠ .syncFlush)
-    (hfin : (a == .finish) = true → D ++ inp = input) :
-    let r := simpleCode F (Src.null isEnc) allocated s inp cap a
-    SInv F φ₀ input r.1 (D ++ inp.take r.2.consumed) (O ++ r.2.out) ∧ r.2.consumed ≤ inp.length
+/-- One whole `simple_code()` call keeps the invariant. `C` = what the source delivered during this call. -/
+theorem simpleCode_inv {src : Src ν} {fin : Bool} {G : ν → List UInt8 → List UInt8 → Prop} (hl : SrcLaw src fin X G)
+    (allocated : Nat) (s : Simple φ ν) (D O inp tail : List UInt8) (cap : Nat) (a : Action)
+    (hinv : SInv F lim φ₀ X s D O) (hG : G s.next D (inp ++ tail)) (hlive : ¬(s.endReached = true ∧ s.pos = s.buffer.length))
+    (ha : a ≠ .syncFlush) (hfin : (a == .finish) = true → tail = [] ∧ fin = true) :
+    let r := simpleCode F src allocated s inp cap a
+    ∃ C, SInv F lim φ₀ X r.1 (D ++ C) (O ++ r.2.out) ∧ r.2.consumed ≤ inp.length
+      ∧ G r.1.next (D ++ C) (inp.drop r.2.consumed ++ tail)
       ∧ (r.2.ret = .streamEnd ↔ (r.1.endReached = true ∧ r.1.pos = r.1.buffer.length))
       ∧ (r.2.ret = .ok ∨ r.2.ret = .streamEnd) := by
   -- the part after the flush, from a state with pos = filtered, not ended, having written out0 in this call
-  have main : ∀ (s1 : Simple φ Unit) (out0 : List UInt8), SInv F φ₀ input s1 D (O ++ out0) → s1.endReached = false →
+  have main : ∀ (s1 : Simple φ ν) (out0 : List UInt8), SInv F lim φ₀ X s1 D (O ++ out0) → s1.next = s.next → s1.endReached = false →
       s1.pos = s1.filtered →
-      let r := simpleMain F (Src.null isEnc) allocated s1 inp cap (a == .finish) out0
-      SInv F φ₀ input r.1 (D ++ inp.take r.2.2) (O ++ r.2.1) ∧ r.2.2 ≤ inp.length := by
-    intro s1 out0 hi he hp
+      let r := simpleMain F src allocated s1 inp cap (a == .finish) out0
+      ∃ C, SInv F lim φ₀ X r.1 (D ++ C) (O ++ r.2.1) ∧ r.2.2 ≤ inp.length ∧ G r.1.next (D ++ C) (inp.drop r.2.2 ++ tail) := by
+    intro s1 out0 hi hn he hp
     simp only [simpleMain]
-    obtain ⟨n1, a1, a2, a3, a4, a5, a6⟩ := stageA_inv hc isEnc s1 D (O ++ out0) out0 inp cap (a == .finish) hi he hp hfin
-    have hfin2 : (a == .finish) = true →
-        D ++ inp.take (simpleStageA F (Src.null isEnc) s1 inp cap (a == .finish) out0).2.2
-          ++ inp.drop (simpleStageA F (Src.null isEnc) s1 inp cap (a == .finish) out0).2.2 = input := by
-      intro h; rw [List.append_assoc, List.take_append_drop]; exact hfin h
-    obtain ⟨n2, k, b1, b2, b3, b4⟩ := stageB_inv hc isEnc allocated _ _ _ inp cap (a == .finish) a2 a4 a5 a6 hfin2
+    obtain ⟨n1, C1, a1, a2, a3, a4, a5, a6, a7⟩ := stageA_inv hc hl s1 D (O ++ out0) out0 inp tail cap (a == .finish) hi
+      (by rw [hn]; exact hG) he hp hfin
+    obtain ⟨n2, C2, k, b1, b2, b3, b4, b5⟩ := stageB_inv hc hl allocated _ _ _ inp tail cap (a == .finish) a2 a4 a5 a6 a7 hfin
     rw [b1, b2, a1]
-    have hlen : k ≤ inp.length - (simpleStageA F (Src.null isEnc) s1 inp cap (a == .finish) out0).2.2 := by
+    have hlen : k ≤ inp.length - (simpleStageA F src s1 inp cap (a == .finish) out0).2.2 := by
       simpa using b3
-    refine ⟨?_, by omega⟩
-    have e : inp.take ((simpleStageA F (Src.null isEnc) s1 inp cap (a == .finish) out0).2.2 + k)
-        = inp.take (simpleStageA F (Src.null isEnc) s1 inp cap (a == .finish) out0).2.2
-          ++ (inp.drop (simpleStageA F (Src.null isEnc) s1 inp cap (a == .finish) out0).2.2).take k := by
-      rw [List.take_add]
-    rw [e, ← List.append_assoc D, ← List.append_assoc O, ← List.append_assoc O]
-    exact b4
-  have retIff : ∀ (s2 : Simple φ Unit), (simpleRet s2 = .streamEnd ↔ (s2.endReached = true ∧ s2.pos = s2.buffer.length))
+    refine ⟨C1 ++ C2, ?_, by omega, ?_⟩
+    · rw [← List.append_assoc D, ← List.append_assoc O, ← List.append_assoc O]
+      exact b5
+    · rw [← List.append_assoc D, ← List.drop_drop]
+      exact b4
+  have retIff : ∀ (s2 : Simple φ ν), (simpleRet s2 = .streamEnd ↔ (s2.endReached = true ∧ s2.pos = s2.buffer.length))
       ∧ (simpleRet s2 = .ok ∨ simpleRet s2 = .streamEnd) := by
     intro s2
     simp only [simpleRet]
@@ -262,8 +298,8 @@ theorem simpleCode_inv (isEnc : Bool) (allocated : Nat) (s : Simple φ Unit) (D 
     revert hn
     generalize min (s.filtered - s.pos) cap = n
     intro hn
-    have hi1 : SInv F φ₀ input { s with pos := s.pos + n } D (O ++ (s.buffer.drop s.pos).take n) := by
-      refine ⟨by simp; omega, hinv.ord2, fun he => ?_, fun he => ?_⟩
+    have hi1 : SInv F lim φ₀ X { s with pos := s.pos + n } D (O ++ (s.buffer.drop s.pos).take n) := by
+      refine ⟨hinv.bound, by simp; omega, hinv.ord2, fun he => ?_, fun he => ?_⟩
       · have := hinv.live he
         simp only
         rw [List.append_assoc, flush_split _ _ _ _ (by omega)]
@@ -276,7 +312,7 @@ theorem simpleCode_inv (isEnc : Bool) (allocated : Nat) (s : Simple φ Unit) (D 
         rw [← List.drop_drop, List.take_append_drop]
     split
     · rename_i hlt
-      refine ⟨by simpa using hi1, by simp, ?_, Or.inl rfl⟩
+      refine ⟨[], by simpa using hi1, by simp, by simpa using hG, ?_, Or.inl rfl⟩
       simp only
       constructor
       · intro h; cases h
@@ -286,16 +322,15 @@ theorem simpleCode_inv (isEnc : Bool) (allocated : Nat) (s : Simple φ Unit) (D 
     · rename_i hge
       split
       · rename_i hend
-        refine ⟨by simpa using hi1, by simp, ?_, Or.inr rfl⟩
+        refine ⟨[], by simpa using hi1, by simp, by simpa using hG, ?_, Or.inr rfl⟩
         simp only [true_iff]
         refine ⟨hend, ?_⟩
         have := (hinv.dead hend).2.2
         omega
       · rename_i hend
         simp only [Bool.not_eq_true] at hend
-        have hm := main { s with pos := s.pos + n } ((s.buffer.drop s.pos).take n) hi1 hend (by simp; omega)
-        obtain ⟨m1, m2⟩ := hm
-        exact ⟨m1, m2, retIff _⟩
+        obtain ⟨C, m1, m2, m3⟩ := main { s with pos := s.pos + n } ((s.buffer.drop s.pos).take n) hi1 rfl hend (by simp; omega)
+        exact ⟨C, m1, m2, m3, retIff _⟩
   · rename_i hpf
     have hpe : s.pos = s.filtered := by have := hinv.ord1; omega
     have hend : s.endReached = false := by
@@ -306,64 +341,69 @@ theorem simpleCode_inv (isEnc : Bool) (allocated : Nat) (s : Simple φ Unit) (D 
         refine ⟨h, ?_⟩
         have := (hinv.dead h).2.2
         omega
-    have hm := main s [] (by simpa using hinv) hend hpe
-    obtain ⟨m1, m2⟩ := hm
-    exact ⟨m1, m2, retIff _⟩
+    obtain ⟨C, m1, m2, m3⟩ := main s [] (by simpa using hinv) rfl hend hpe
+    exact ⟨C, m1, m2, m3, retIff _⟩
 
-/-- Invariant of a sliced run of the simple coder over `input`. -/
-structure SRunInv (F : Filter φ) (φ₀ : φ) (input : List UInt8) (r : Run (Simple φ Unit)) : Prop where
-  split : ∃ D, D ++ r.rest = input ∧ r.consumed = D.length ∧ SInv F φ₀ input r.state D r.out
+/-- Invariant of a sliced run of the simple coder over `input` (`total` = its length). -/
+structure SRunInv (F : Filter φ) (lim : Nat) (φ₀ : φ) (X : List UInt8) (G : ν → List UInt8 → List UInt8 → Prop) (total : Nat)
+    (r : Run (Simple φ ν)) : Prop where
+  split : ∃ D, G r.state.next D r.rest ∧ SInv F lim φ₀ X r.state D r.out
+  len : r.consumed + r.rest.length = total
   retOk : r.ret = .ok → ¬(r.state.endReached = true ∧ r.state.pos = r.state.buffer.length)
   retEnd : r.ret ≠ .ok → r.ret = .streamEnd ∧ r.state.endReached = true ∧ r.state.pos = r.state.buffer.length
 
 omit hc in
-theorem SRunInv.init (F : Filter φ) (φ₀ : φ) (input : List UInt8) : SRunInv F φ₀ input (Run.init (Simple.init φ₀ ()) input) :=
-  ⟨⟨[], by simp [Run.init], by simp [Run.init], by simpa [Run.init] using SInv.init F φ₀ input⟩,
+theorem SRunInv.init (F : Filter φ) (lim : Nat) (φ₀ : φ) (X : List UInt8) (G : ν → List UInt8 → List UInt8 → Prop) (input : List UInt8)
+    (hlim : X.length < lim) (n₀ : ν) (hG : G n₀ [] input) :
+    SRunInv F lim φ₀ X G input.length (Run.init (Simple.init φ₀ n₀) input) :=
+  ⟨⟨[], by simpa [Run.init, Simple.init] using hG, by simpa [Run.init] using SInv.init F lim φ₀ X hlim n₀⟩, by simp [Run.init],
    fun _ => by simp [Run.init, Simple.init], fun h => by simp [Run.init] at h⟩
 
-theorem SRunInv.piece (isEnc : Bool) (allocated : Nat) (fin : Bool) {r : Run (Simple φ Unit)} (h : SRunInv F φ₀ input r)
+theorem SRunInv.piece {src : Src ν} {fin : Bool} {G : ν → List UInt8 → List UInt8 → Prop} {total : Nat} (hl : SrcLaw src fin X G)
+    (allocated : Nat) {r : Run (Simple φ ν)} (h : SRunInv F lim φ₀ X G total r)
     (hok : r.ret = .ok) (inLen cap : Nat) :
-    SRunInv F φ₀ input (runPiece (simpleCoder F (Src.null isEnc) allocated) fin r inLen cap) := by
-  obtain ⟨D, hD, hcons, hinv⟩ := h.split
+    SRunInv F lim φ₀ X G total (runPiece (simpleCoder F src allocated) fin r inLen cap) := by
+  obtain ⟨D, hG, hinv⟩ := h.split
   have hact : pieceAct fin r.rest.length inLen ≠ Action.syncFlush := by
     unfold pieceAct; split <;> simp
-  have hfinish : (pieceAct fin r.rest.length inLen == Action.finish) = true → D ++ r.rest.take inLen = input := by
+  have hfinish : (pieceAct fin r.rest.length inLen == Action.finish) = true → r.rest.drop inLen = [] ∧ fin = true := by
     intro hf
     unfold pieceAct at hf
     cases hc' : (fin && decide (r.rest.length ≤ inLen)) with
     | false => simp [hc'] at hf
     | true =>
       simp only [Bool.and_eq_true, decide_eq_true_eq] at hc'
-      rw [List.take_of_length_le hc'.2]; exact hD
-  have key := simpleCode_inv hc isEnc allocated r.state D r.out (r.rest.take inLen) cap (pieceAct fin r.rest.length inLen)
-    hinv (h.retOk hok) hact hfinish
+      exact ⟨List.drop_eq_nil_of_le hc'.2, hc'.1⟩
+  have key := simpleCode_inv hc hl allocated r.state D r.out (r.rest.take inLen) (r.rest.drop inLen) cap (pieceAct fin r.rest.length inLen)
+    hinv (by rw [List.take_append_drop]; exact hG) (h.retOk hok) hact hfinish
   rw [runPiece_eq]
   simp only [simpleCoder]
   dsimp only at key
-  obtain ⟨k1, k2, k3, k4⟩ := key
+  obtain ⟨C, k1, k2, k3, k4, k5⟩ := key
   have k2' := k2
   simp only [List.length_take] at k2'
-  have hc1 := Nat.le_trans k2' (Nat.min_le_left _ _)
   have hc2 := Nat.le_trans k2' (Nat.min_le_right _ _)
-  rw [List.take_take, Nat.min_eq_left hc1] at k1
-  refine ⟨⟨_, ?_, ?_, k1⟩, ?_, ?_⟩
+  refine ⟨⟨D ++ C, ?_, k1⟩, ?_, ?_, ?_⟩
   · simp only
-    rw [List.append_assoc, List.take_append_drop]; exact hD
-  · simp only [List.length_append, List.length_take]
-    rw [hcons, Nat.min_eq_left hc2]
+    have e := take_drop_append r.rest inLen _ k2
+    rw [← e]; exact k3
+  · simp only [List.length_drop]
+    have := h.len
+    omega
   · intro hr
     simp only at hr ⊢
     intro hcontra
-    have := k3.mpr hcontra
+    have := k4.mpr hcontra
     rw [hr] at this; cases this
   · intro hr
     simp only at hr ⊢
-    rcases k4 with k4 | k4
-    · exact absurd k4 hr
-    · exact ⟨k4, k3.mp k4⟩
+    rcases k5 with k5 | k5
+    · exact absurd k5 hr
+    · exact ⟨k5, k4.mp k5⟩
 
-theorem SRunInv.sliced (isEnc : Bool) (allocated : Nat) (fin : Bool) (sl : List (Nat × Nat)) {r : Run (Simple φ Unit)}
-    (h : SRunInv F φ₀ input r) : SRunInv F φ₀ input (runSliced (simpleCoder F (Src.null isEnc) allocated) fin sl r) := by
+theorem SRunInv.sliced {src : Src ν} {fin : Bool} {G : ν → List UInt8 → List UInt8 → Prop} {total : Nat} (hl : SrcLaw src fin X G)
+    (allocated : Nat) (sl : List (Nat × Nat)) {r : Run (Simple φ ν)}
+    (h : SRunInv F lim φ₀ X G total r) : SRunInv F lim φ₀ X G total (runSliced (simpleCoder F src allocated) fin sl r) := by
   induction sl generalizing r with
   | nil => simpa [runSliced] using h
   | cons p sl ih =>
@@ -372,29 +412,84 @@ theorem SRunInv.sliced (isEnc : Bool) (allocated : Nat) (fin : Bool) (sl : List 
     split
     · exact h
     · rename_i hok
-      exact ih (h.piece hc isEnc allocated fin (by simpa using hok) inLen cap)
+      exact ih (h.piece hc hl allocated (by simpa using hok) inLen cap)
 
 omit hc in
-/-- What a run has written so far is a prefix of the whole-input result; at `LZMA_STREAM_END` it is all of it. -/
-theorem SRunInv.result {r : Run (Simple φ Unit)} (h : SRunInv F φ₀ input r) :
+/-- What a run has written so far is a prefix of the filter applied to what the source has delivered so far (if that is below the
+    length limit); at `LZMA_STREAM_END` the source has delivered all of `X` and the output is the filter applied to `X`. -/
+theorem SRunInv.result {G : ν → List UInt8 → List UInt8 → Prop} {total : Nat} {r : Run (Simple φ ν)} (h : SRunInv F lim φ₀ X G total r) :
+    (∃ D, G r.state.next D r.rest ∧ (D.length < lim → ∃ o, (F φ₀ D).1 = r.out ++ o))
+      ∧ (r.ret = .streamEnd → r.out = (F φ₀ X).1 ∧ G r.state.next X r.rest) := by
+  obtain ⟨D, hG, hinv⟩ := h.split
+  constructor
+  · refine ⟨D, hG, fun hD => ?_⟩
+    cases he : r.state.endReached with
+    | false =>
+      have := (hinv.live he).eq [] (by simpa using hD)
+      rw [List.append_nil] at this
+      exact ⟨(r.state.buffer.take r.state.filtered).drop r.state.pos ++ (F r.state.filt (r.state.buffer.drop r.state.filtered ++ [])).1,
+        by rw [this]; simp only [List.append_assoc]⟩
+    | true =>
+      obtain ⟨d1, d2, _⟩ := hinv.dead he
+      rw [d1]
+      exact ⟨_, d2.symm⟩
+  · intro hr
+    obtain ⟨_, e1, e2⟩ := h.retEnd (by rw [hr]; simp)
+    obtain ⟨d1, d2, _⟩ := hinv.dead e1
+    rw [e2, List.drop_length, List.append_nil] at d2
+    exact ⟨d2, by rw [← d1]; exact hG⟩
+
+end stages
+
+/-! ### Instance 1: no next coder (`lzma_bufcpy`) -/
+
+/-- `copy_or_code()` with `next.code == NULL`: the delivered bytes are the consumed input. -/
+def NullG (input : List UInt8) : Unit → List UInt8 → List UInt8 → Prop := fun _ D rest => D ++ rest = input
+
+theorem nullLaw (endsAtFinish : Bool) (fin : Bool) (input : List UInt8) : SrcLaw (Src.null endsAtFinish) fin input (NullG input) := by
+  constructor
+  intro n D inp tail cap finish hG hfin
+  simp only [Src.null, NullG] at hG ⊢
+  have hn : min inp.length cap ≤ inp.length := Nat.min_le_left _ _
+  revert hn
+  generalize min inp.length cap = k
+  intro hn
+  refine ⟨hn, ?_, fun he => ?_⟩
+  · rw [List.append_assoc, ← List.append_assoc (inp.take k), List.take_append_drop]; exact hG
+  · simp only [Bool.and_eq_true, decide_eq_true_eq] at he
+    obtain ⟨⟨_, hf⟩, hk⟩ := he
+    obtain ⟨ht, _⟩ := hfin hf
+    rw [hk, List.take_length]
+    rw [ht, List.append_nil] at hG
+    exact hG
+
+/-- What a run with no next coder has written so far is a prefix of the whole-input result; at `LZMA_STREAM_END` it is all of it and
+    all input has been consumed. -/
+theorem SRunInv.result_null {F : Filter φ} {lim : Nat} {φ₀ : φ} {input : List UInt8} {r : Run (Simple φ Unit)}
+    (h : SRunInv F lim φ₀ input (NullG input) input.length r) :
     (∃ o, (F φ₀ input).1 = r.out ++ o) ∧ (r.ret = .streamEnd → r.out = (F φ₀ input).1 ∧ r.consumed = input.length) := by
-  obtain ⟨D, hD, hcons, hinv⟩ := h.split
+  obtain ⟨D, hG, hinv⟩ := h.split
+  have hG' : D ++ r.rest = input := hG
   constructor
   · cases he : r.state.endReached with
     | false =>
-      have := hinv.live he r.rest
-      rw [hD] at this
+      have := (hinv.live he).eq r.rest (by rw [hG']; exact hinv.bound)
+      rw [hG'] at this
       exact ⟨(r.state.buffer.take r.state.filtered).drop r.state.pos ++ (F r.state.filt (r.state.buffer.drop r.state.filtered ++ r.rest)).1,
         by rw [this]; simp only [List.append_assoc]⟩
     | true =>
       obtain ⟨_, d2, _⟩ := hinv.dead he
       exact ⟨_, d2.symm⟩
   · intro hr
-    obtain ⟨_, e1, e2⟩ := h.retEnd (by rw [hr]; simp)
-    obtain ⟨d1, d2, _⟩ := hinv.dead e1
-    rw [e2, List.drop_length, List.append_nil] at d2
-    exact ⟨d2, by rw [hcons, d1]⟩
-
-end stages
+    obtain ⟨e1, e2⟩ := h.result.2 hr
+    refine ⟨e1, ?_⟩
+    have e3 : input ++ r.rest = input := e2
+    have hnil : r.rest = [] := by
+      have := congrArg List.length e3
+      simp only [List.length_append] at this
+      exact List.eq_nil_of_length_eq_zero (by omega)
+    have := h.len
+    rw [hnil] at this
+    simpa using this
 
 end XzVerif.Coder
